@@ -35,6 +35,7 @@ func (vc *VC) reset(dry bool) {
 	vc.nonFresh, vc.freshRoots = map[int]map[string]bool{}, map[int]map[string][]int{}
 	vc.defers, vc.inputs, vc.unsupp = nil, nil, nil
 	vc.useRoot = false
+	vc.cells = nil
 	vc.trusted = map[string]bool{}
 	vc.revealed = map[string]bool{}
 	if vc.spec != nil {
@@ -487,7 +488,8 @@ func (vc *VC) instr(ins ssa.Instruction) {
 		sv := vc.val(x.X)
 		st := x.X.Type().Underlying().(*types.Struct)
 		f := st.Field(x.Field)
-		vc.setVal(x, fmt.Sprintf("(%s_%s %s)", vc.structSort(x.X.Type()), mangle(f.Name()), sv.S))
+		ft := vc.setVal(x, fmt.Sprintf("(%s_%s %s)", vc.structSort(x.X.Type()), mangle(f.Name()), sv.S))
+		vc.assume(vc.rangeFact(ft.S, x.Type())) // type invariant of the extracted value (slice header / string / integer range)
 	case *ssa.Index:
 		xv := vc.val(x.X)
 		iv := vc.val(x.Index)
